@@ -95,6 +95,37 @@ class SegGenV(V):
     def kind(self):
         return KIDS
 
+    def to_seq(self, kind):
+        """Concatenation of the segments as a sequence of kind.elem (None items are not representable)."""
+        parts = []
+        for how, seg in self.segments:
+            if how == "many":
+                if seg.elem != kind.elem:
+                    raise Unsupported(f"generator segment of {seg.elem!r} as {kind.elem!r}")
+                parts.append(seg.t)
+            else:
+                parts.append(z3.Unit(box(seg, kind.elem)))
+        if not parts:
+            return z3.Empty(kind.sort())
+        return parts[0] if len(parts) == 1 else z3.Concat(*parts)
+
+
+class ManyV(V):
+    """Marker in a generator's ghost yield list: `yield from <symbolic list>`."""
+
+    def __init__(self, lst):
+        self.lst = lst
+        self.kind = lst.kind
+
+
+def gen_value(items):
+    """Ghost yield list -> generator value (GenV when all items are single values)."""
+    from . import builtins_model as bm
+
+    if any(isinstance(i, ManyV) for i in items):
+        return SegGenV([("many", i.lst) if isinstance(i, ManyV) else ("one", i) for i in items])
+    return bm.GenV(items)
+
 
 def mk_attrs(pairs):
     """[(key term, value term)] -> z3 term of sort ATTRS (keys in order)."""
